@@ -18,7 +18,7 @@ Monitor shape: the uncached callable (cache.disable()) is the executable model.
 
 import os, json, time, shutil, tempfile, hashlib, subprocess, traceback
 import numpy
-from vlib.runner import Result, rng_for
+from vlib.runner import Result, rng_for, scaled
 
 PROPERTY = 'C18'
 LEVEL = 'fault_enumeration'
@@ -74,8 +74,13 @@ def payload_spec(tier, seed, i):
     return dict(sig=SIGNATURES[(i + seed) % len(SIGNATURES)], kind=kind, seed=int(s), nlog=NLOGS[(i * 3 + seed) % len(NLOGS)], dress=0)
 
 
+def sizes(tier):
+    """case counts of the tier; VERIF_SCALE (development aid, vlib.runner.scaled) shrinks them"""
+    return {k: (v if k == 'realkills' else scaled(v)) for k, v in N[tier].items()}
+
+
 def plan(tier, seed):
-    n = N[tier]
+    n = sizes(tier)
     groups = dict(
         payload=[dict(u='payload', i=i) for i in range(n['payloads'])],
         users=[dict(u='users', i=i) for i in range(n['users'])],
@@ -928,7 +933,7 @@ REPRO_TIMEOUT_S = 300
 
 def finalize(m, tier, seed):
     c = m.counters
-    n = N[tier]
+    n = sizes(tier)
 
     def table(name):
         rows, seen = [], set()
@@ -988,19 +993,19 @@ def finalize(m, tier, seed):
         inc.append(f"only {done} of {n['payloads']} payloads completed")
     if c.get('payloads_exhaustive', 0) + c.get('payloads_raising', 0) < 0.9 * n['payloads'] - n['users']:
         inc.append(f"only {c.get('payloads_exhaustive', 0)} payloads had all cut points enumerated")
-    if c.get('fault_calls/trunc', 0) < 1000:
+    if c.get('fault_calls/trunc', 0) < scaled(1000):
         inc.append('truncation monitor barely reached')
-    if c.get('real_kills', 0) < 20:
+    if c.get('real_kills', 0) < scaled(20):
         inc.append('too few real kills')
-    if c.get('fault_model_validated/trunc', 0) < 10:
+    if c.get('fault_model_validated/trunc', 0) < scaled(10):
         inc.append('prefix fault model not validated against real kills')
     if sum(sub('fault_model_mismatch/').values()):
         inc.append('a real kill left a file the offline fault model does not produce: ' + '; '.join(m.notes[:2]))
-    if not (c.get('fault_calls/mix', 0) >= 1000 or (c.get('mix_not_enumerated/unreachable', 0) >= 5 and not c.get('fault_model_validated/mix', 0))):
+    if not (c.get('fault_calls/mix', 0) >= scaled(1000) or (c.get('mix_not_enumerated/unreachable', 0) >= scaled(5) and not c.get('fault_model_validated/mix', 0))):
         inc.append('prefix+old-suffix family neither enumerated nor shown unreachable')
     if c.get('rec_histories', 0) < 0.9 * n['rec'] or c.get('recx_exhaustive', 0) < 0.75 * n['recx']:
         inc.append(f"recursion monitors under-exercised ({c.get('rec_histories', 0)} histories, {c.get('recx_exhaustive', 0)} exhaustive)")
-    if c.get('rec_real_kills', 0) < 5 or c.get('rec_items_resumed', 0) < 20:
+    if c.get('rec_real_kills', 0) < scaled(5) or c.get('rec_items_resumed', 0) < scaled(20):
         inc.append('recursion resume path barely reached')
     if c.get('conc_groups', 0) < 0.9 * n['conc'] or c.get('conc_executions', 0) < c.get('conc_keys', 0) or c.get('conc_callers_ok', 0) < 3 * c.get('conc_groups', 0):
         inc.append('concurrency monitor under-exercised')
